@@ -22,7 +22,9 @@ func c11Program() (doc string, ghosts int) {
 	docX := verifChoice(2) == 1
 	members := pickS("User[]", "(User | SubjectSet<Group, \"members\">)[]")
 	// (Doc[] and (User | Doc)[]: a relation typed with its own namespace)
-	parents := pickS("Group[]", "SubjectSet<Group, \"members\">[]", "(User | Group)[]", "SubjectSet<Group, \"ghost\">[]", "Ghost[]", "Doc[]", "(User | Doc)[]")
+	parents := pickS("Group[]", "SubjectSet<Group, \"members\">[]", "(User | Group)[]", "SubjectSet<Group, \"ghost\">[]", "Ghost[]", "Doc[]", "(User | Doc)[]",
+		// undeclared names inside unions and the generic array spelling
+		"(User | SubjectSet<Group, \"ghost\">)[]", "Array<SubjectSet<Group, \"ghost\">>", "Array<User | Ghost>")
 	if strings.Contains(parents, "ghost") || strings.Contains(parents, "Ghost") {
 		ghosts++
 	}
